@@ -16,7 +16,8 @@ EXTENDS Naturals, Sequences, FiniteSets, TLC
 
 CONSTANTS Producers, SpansPer, QCap, MaxBatch, Blocking, Flushers, Stoppers,
           AllowKnown,    \* TRUE: admit the known deviations of the code (see Contract)
-          CodeShape,     \* "current" | "pre-ada0bc0" (blocking sends did not look at stopCh: D2/D3)
+          CodeShape,     \* "current" | "pre-ada0bc0" (blocking sends did not look at stopCh: D2/D3) |
+                         \* "proposed" (current + proposed_fixes/C01-*.diff: D6 and D7 repaired)
           Outcomes,      \* subset of {"ok", "error", "timeout"}: what an ExportSpans call may answer
           ExportTimeout, \* BOOLEAN: o.ExportTimeout > 0 (exportSpans derives a ctx with deadline)
           Expiring,      \* subset of Flushers \cup Stoppers: callers whose ctx may become done during the call
@@ -47,7 +48,8 @@ Span(id) == [t |-> "span", id |-> id]
 Marker(f) == [t |-> "marker", f |-> f]
 Procs == Producers \cup Flushers \cup Stoppers \cup {"w"}
 Callers == Flushers \cup Stoppers
-Current == CodeShape = "current"
+Current == CodeShape \in {"current", "proposed"}
+Proposed == CodeShape = "proposed"
 
 Init ==
   /\ queue = <<>> /\ batch = <<>> /\ mutex = "none" /\ dropped = 0
@@ -58,7 +60,7 @@ Init ==
   /\ expired = {} /\ err = [c \in Callers |-> ""]
   /\ mon = [inflight |-> <<>>, handed |-> [id \in Ids |-> 0], droppedIds |-> {}, ignoredIds |-> {}, abandonedIds |-> {},
             returnedEnd |-> {}, raced |-> {}, snapF |-> [f \in Flushers |-> {}], snapS |-> [s \in Stoppers |-> {}],
-            sdCalled |-> FALSE, shutRet |-> FALSE, sdRetErr |-> FALSE, expShut |-> FALSE,
+            sdCalled |-> FALSE, shutRet |-> FALSE, nilRet |-> {}, sdRetErr |-> FALSE, expShut |-> FALSE,
             early |-> [f \in Flushers |-> FALSE], nomarker |-> [f \in Flushers |-> FALSE], bad |-> {}]
 
 Go(x, l) == pc' = [pc EXCEPT ![x] = l]
@@ -70,8 +72,10 @@ Go(x, l) == pc' = [pc EXCEPT ![x] = l]
 (* the caller's does, or if ExportTimeout > 0.                                *)
 HasDeadline(who) == ExportTimeout \/ who \in Expiring
 (* the ctx of some Shutdown call is done and the exporter has not been shut down yet: the drain that   *)
-(* call started (or waited for) may still be running although the call has returned (D5)               *)
+(* call started may still be running although the call has returned (D5); EarlyNil(N): some OTHER      *)
+(* Shutdown call (one of N) has returned nil meanwhile (D7)                                             *)
 DrainOutlives == Stoppers \cap expired # {} /\ ~mon.expShut
+EarlyNil(N) == ~mon.expShut /\ \E o \in Stoppers \cap expired : N \ {o} # {}
 ExportBegin(m, who) ==
   [m EXCEPT !.inflight = batch,
             !.handed = [id \in Ids |-> @[id] + Cardinality({i \in 1..Len(batch) : batch[i] = id})],
@@ -80,9 +84,9 @@ ExportBegin(m, who) ==
                       \cup (IF ExportTimeout /\ ~HasDeadline(who) THEN {"export-without-deadline"} ELSE {})
                       \cup (IF m.expShut THEN {"export-after-shutdown"}
                             ELSE IF ~(m.shutRet \/ m.sdRetErr) THEN {}
-                            ELSE IF ~DrainOutlives THEN {"export-after-shutdown"}
-                            ELSE IF m.shutRet THEN {"D7-shutdown-nil-while-expired-drain-runs"}
-                            ELSE {"D5-export-after-expired-shutdown"})]
+                            ELSE IF m.nilRet = {} /\ DrainOutlives THEN {"D5-export-after-expired-shutdown"}
+                            ELSE IF EarlyNil(m.nilRet) THEN {"D7-shutdown-nil-while-expired-drain-runs"}
+                            ELSE {"export-after-shutdown"})]
 (* the answers an export by `who` may get now: "timeout" = the exporter waits for ctx.Done() *)
 Answers(who) == {o \in Outcomes : o = "timeout" => (ExportTimeout \/ who \in expired)}
 AfterExport(o) == IF o = "ok" \/ ResetOnFailure THEN <<>> ELSE batch
@@ -167,15 +171,17 @@ FCheck(f) == /\ pc[f] = "check"
 (* goes on to export the batch as it is -- without having waited for the spans queued before it (D6).  *)
 FEnq(f) == /\ pc[f] = "enq"
            /\ \/ /\ Len(queue) < QCap
-                 /\ queue' = Append(queue, Marker(f)) /\ Go(f, "wait") /\ UNCHANGED <<hx, mon>>
+                 /\ queue' = Append(queue, Marker(f)) /\ Go(f, "wait") /\ UNCHANGED <<hx, mon, err>>
               \/ /\ Current /\ stopCh
-                 /\ FEarly(f) /\ UNCHANGED <<queue, hx>>
+                 /\ FEarly(f) /\ UNCHANGED <<queue, hx, err>>
               \/ /\ f \in expired
                  /\ IF Current /\ stopped
-                      THEN (FEarly(f) /\ UNCHANGED <<queue, hx>>)
+                      THEN (FEarly(f) /\ UNCHANGED <<queue, hx, err>>)
+                      ELSE IF Proposed        \* proposed fix of D6: marker not enqueued and ctx done -> ctx.Err()
+                      THEN (Go(f, "ret") /\ err' = [err EXCEPT ![f] = "ctx"] /\ UNCHANGED <<queue, hx, mon>>)
                       ELSE /\ Go(f, "waitexp") /\ hx' = [hx EXCEPT ![f] = "lock"]
-                           /\ mon' = [mon EXCEPT !.nomarker[f] = TRUE] /\ UNCHANGED queue
-           /\ UNCHANGED <<batch, mutex, dropped, stopped, stopCh, flushed, pidx, wret, wtmp, hres, hs, expired, err>>
+                           /\ mon' = [mon EXCEPT !.nomarker[f] = TRUE] /\ UNCHANGED <<queue, err>>
+           /\ UNCHANGED <<batch, mutex, dropped, stopped, stopCh, flushed, pidx, wret, wtmp, hres, hs, expired>>
 FWaitStop(f) == /\ pc[f] = "wait" /\ stopCh /\ FEarly(f) /\ UNCHANGED proto
 FWaitFlushed(f) == /\ pc[f] = "wait" /\ flushed[f] /\ Go(f, "waitexp") /\ hx' = [hx EXCEPT ![f] = "lock"]
                    /\ UNCHANGED <<queue, batch, mutex, dropped, stopped, stopCh, flushed, pidx, wret, wtmp, hres, hs, expired, err, mon>>
@@ -222,13 +228,16 @@ HWait == /\ hs = "wait" /\ pc["w"] = "done" /\ hs' = "done"       \* stopWait.Wa
 SWait(s) == /\ pc[s] = "waitdone" /\ hs = "done" /\ Go(s, "ret") /\ UNCHANGED <<proto, mon>>
 SCtx(s) == /\ pc[s] = "waitdone" /\ s \in expired /\ Go(s, "ret") /\ err' = [err EXCEPT ![s] = "ctx"]
            /\ UNCHANGED <<queue, batch, mutex, dropped, stopped, stopCh, flushed, pidx, wret, wtmp, hx, hres, hs, expired, mon>>
-SOnceWait(s) == /\ pc[s] = "oncewait" /\ \E o \in Stoppers : pc[o] \in {"ret", "done"}
-                /\ Go(s, "ret") /\ UNCHANGED <<proto, mon>>
+(* proposed fix of D7: the Once body only starts the helper; EVERY caller then waits for it or for its own ctx *)
+SOnceWait(s) == /\ pc[s] = "oncewait"
+                /\ IF Proposed THEN (\E o \in Stoppers : pc[o] \notin {"idle", "set", "oncewait"}) /\ Go(s, "waitdone")
+                               ELSE (\E o \in Stoppers : pc[o] \in {"ret", "done"}) /\ Go(s, "ret")
+                /\ UNCHANGED <<proto, mon>>
 SRet(s) == /\ pc[s] = "ret" /\ Go(s, "done")
            /\ mon' = IF err[s] # "" THEN [mon EXCEPT !.sdRetErr = TRUE]
-                     ELSE [mon EXCEPT !.shutRet = TRUE,
+                     ELSE [mon EXCEPT !.shutRet = TRUE, !.nilRet = @ \cup {s},
                                  !.bad = @ \cup (IF Missing(mon.snapS[s]) = {} THEN {}
-                                                 ELSE IF DrainOutlives
+                                                 ELSE IF EarlyNil({s})
                                                       THEN {"D7-shutdown-nil-while-expired-drain-runs"}
                                                  ELSE IF Missing(mon.snapS[s]) \subseteq mon.raced
                                                       THEN {"D4-enqueue-after-drain"} ELSE {"shutdown-missed"})]
